@@ -189,6 +189,29 @@ def run_route(case):
             lib(lambda: delattr(obj, name), what=what + " [del]", sig=sig)
             check(name not in obj.attrs and not hasattr(obj, name), "public-del-did-not-delete", {"what": what, "attrs": core.jsonable(obj.attrs)}, sig)
             core.must_raise(lambda: delattr(obj, name), (AttributeError,), what + " [del twice]", sig=sig)
+        # ---------------- the keyword form of the same write: Axis.set(**{name: value}) and DimArray.set_axis(axis=, **{name: value}) use setattr on the axis
+        if clsname == "Axis" and name not in ("values", "inplace", "name", "axis", "attrs", "_attrs"):
+            import contextlib
+            for how in ("Axis.set", "DimArray.set_axis"):
+                arr = make("DimArray")
+                axo = make("Axis") if how == "Axis.set" else arr.axes[0]
+                try:
+                    with contextlib.redirect_stdout(core._DEVNULL), np.errstate(all="ignore"):
+                        if how == "Axis.set":
+                            axo.set(inplace=True, **{name: value})
+                        else:
+                            arr.set_axis(axis=0, **{name: value})
+                    raised = False
+                except Exception:
+                    raised = True
+                if reserved:
+                    check(name not in dict(axo.attrs), "reserved-name-entered-attrs", {"what": what + " [%s(**{%r: value})]" % (how, name), "attrs": core.jsonable(dict(axo.attrs))}, sig)
+                    if name == "tol" and not raised:
+                        check(axo.tol is value or core.attrs_equal(axo.tol, value), "keyword-did-not-reach-the-property", {"what": what + " [%s(tol=value)]" % how, "tol": core.jsonable(axo.tol)}, sig)
+                else:
+                    check(not raised and name in axo.attrs and (axo.attrs[name] is value or core.attrs_equal(axo.attrs[name], value)), "public-set-did-not-write-attrs",
+                          {"what": what + " [%s(**{%r: value})]" % (how, name), "attrs": core.jsonable(dict(axo.attrs))}, sig)
+                cl.add("route:keyword-form")
         sub.append((core.digest([clsname, name, vi]), reserved or is_dim))
     # attrs setter / deleter
     obj = make(clsname)
